@@ -39,3 +39,25 @@ Theorem C13_resolve_normal_base : forall base rel,
                               (split c_slash (main_part rel)))).
 Proof. exact resolve_normal_base. Qed.
 Print Assumptions C13_resolve_normal_base.
+
+(* which definition a <template is> renders (Model/Link.v) *)
+From GE Require Import Model.Link Proofs.LinkProofs.
+Theorem C13_template_local_first : forall reg base local imports name,
+  mem_str name local = true -> template_owner reg base local imports name = Some base.
+Proof. exact owner_local. Qed.
+Print Assumptions C13_template_local_first.
+
+Theorem C13_template_last_import_wins : forall reg base local pre rel post name p,
+  mem_str name local = false ->
+  import_defines reg base rel name = Some p ->
+  (forall r, In r post -> import_defines reg base r name = None) ->
+  template_owner reg base local (pre ++ rel :: post) name = Some p.
+Proof. exact owner_last_import. Qed.
+Print Assumptions C13_template_last_import_wins.
+
+Theorem C13_template_undefined : forall reg base local imports name,
+  mem_str name local = false ->
+  (forall r, In r imports -> import_defines reg base r name = None) ->
+  template_owner reg base local imports name = None.
+Proof. exact owner_undefined. Qed.
+Print Assumptions C13_template_undefined.
